@@ -281,6 +281,7 @@ type c12cfg struct {
 	pendingAccept        bool
 	pendingRead          bool
 	late                 bool
+	lateNew              bool // a datagram from a remote the listener has never seen, racing with Close
 	bound                int
 }
 
@@ -294,6 +295,9 @@ func (c c12cfg) name() string {
 	}
 	if c.late {
 		s += " +late-datagram"
+	}
+	if c.lateNew {
+		s += " +late-datagram-from-new-remote"
 	}
 	return s
 }
@@ -425,6 +429,11 @@ func c12scenario(c c12cfg) *explore.Scenario {
 					sock.Inject(udpRemotes["a1"], []byte("a1-late"))
 				})
 			}
+			if c.lateNew {
+				zzvsched.GoNamed("late-datagram-new", func() {
+					sock.Inject(&net.UDPAddr{IP: net.IPv4(10, 0, 0, 9), Port: 9}, []byte("new-0"))
+				})
+			}
 		}
 		check := func(ex *zzvsched.Exec) (string, *explore.Violation) {
 			sort.Strings(outcome)
@@ -515,6 +524,8 @@ func init() {
 				{accepted: 1, unaccepted: 1, pendingAccept: true, bound: b},
 				{accepted: 2, unaccepted: 0, bound: b},
 				{accepted: 1, unaccepted: 0, late: true, bound: b},
+				{accepted: 0, unaccepted: 0, lateNew: true, bound: b},
+				{accepted: 1, unaccepted: 0, lateNew: true, bound: b},
 			}
 			if tier == "thorough" {
 				cfgs = append(cfgs, c12cfg{accepted: 2, unaccepted: 1, pendingAccept: true, pendingRead: true, bound: 2},
